@@ -4,7 +4,7 @@ for l in open('/verif/properties.jsonl'):
     p=json.loads(l); props[p['id']]=p
 tmpl=open('/verif/docs/SEED_PROMPT.txt').read()
 for pid in sys.argv[1:]:
-    p=props[pid]; wt='/tmp/seed3-'+pid
+    p=props[pid]; wt=os.environ.get('WAVE_PREFIX','/tmp/seed3-')+pid
     txt=tmpl.replace('{WT}',wt).replace('{PID}',pid).replace('{TITLE}',p['title']).replace('{STATEMENT}',p['statement']).replace('{QUANT}',p['quantifier']['text'])
     prev=[]
     for d in sorted(glob.glob('/verif/seeded/%s-*'%pid)):
@@ -17,6 +17,6 @@ for pid in sys.argv[1:]:
 
 Additional constraints for this round: %d changes have already been produced for this property by other people; yours must differ from ALL of them in mechanism AND location: %s Look for other places where the property can break: other opcodes/builtins/data paths the statement covers, interactions between two features, state kept across calls, boundary sizes, rarely used API entry points. Run the suite as `go test -vet=off -count=1 . ./engine/... ./cmd/...` (so that out/ is not picked up as a package) and run it twice. Note that engine's TestEnv_Lookup depends on the global variable counter: a change that alters how many variables are created while an interpreter boots or a clause is called makes it fail - avoid such changes. The current HEAD already contains a number of recent `fix:` commits; do not simply revert one of them (see `git log`).
 '''%(len(prev),lst)
-    open('/tmp/seedprompts3/%s.txt'%pid,'w').write(txt)
+    open(os.environ.get('PROMPT_DIR','/tmp/seedprompts3')+'/%s.txt'%pid,'w').write(txt)
     subprocess.run(['git','-C','/repo','worktree','add','--detach',wt,'HEAD'],capture_output=True)
     print(pid,len(txt),os.path.isdir(wt))
